@@ -641,6 +641,25 @@ impl Drv {
             false
         };
         let names = ["main", "f", "main", "g"];
+        // annotations aimed at the function being built (the open one is the last): behaviour of the structural
+        // calls must not depend on them
+        if seed % 4 == 1 && !self.function_ids.is_empty() && matches!(name, "decorate" | "decorate_id" | "decorate_string" | "execution_mode" | "execution_mode_id" | "name") {
+            touched |= set_word(groups, 0, *self.function_ids.last().unwrap());
+            if name == "decorate" && (seed / 4) % 2 == 0 {
+                let k = s.kind("Decoration");
+                let k_lt = s.kind("LinkageType");
+                let la = s.enums[&k].values.iter().find(|(_, n)| n.as_str() == "LinkageAttributes").map(|(v, _)| *v);
+                if let (Some(la), Some(g)) = (la, groups.get_mut(1)) {
+                    let lt = s.enums[&k_lt].numbers[(seed / 8) as usize % s.enums[&k_lt].numbers.len()];
+                    g.items = vec![vec![MOp::W(k, la), MOp::S(names[(seed / 16 % 4) as usize].to_string()), MOp::W(k_lt, lt)]];
+                    touched = true;
+                }
+            }
+            if touched {
+                want.ops = groups.iter().flat_map(|g| g.items.iter().flatten().cloned()).collect();
+            }
+            return;
+        }
         match name {
             // names that select_function_by_name looks for, attached to real functions
             "entry_point" => {
